@@ -1,8 +1,13 @@
 package c12
 
 import (
+	"encoding/binary"
+	"sync/atomic"
+
 	"errors"
 	"fmt"
+	"github.com/google/uuid"
+	"github.com/vmihailenco/msgpack/v5"
 	"os"
 	"path/filepath"
 	"regexp"
@@ -51,6 +56,9 @@ type Case struct {
 	Ghost   bool     `json:"ghost,omitempty"`
 	Actions []Action `json:"actions"`
 }
+
+var pointSeq atomic.Uint64
+var dataMu sync.Mutex
 
 func genCase(t *rapid.T) Case {
 	c := Case{Collections: rapid.IntRange(1, 2).Draw(t, "cols"), Shards: rapid.IntRange(1, 2).Draw(t, "shards"),
@@ -259,7 +267,8 @@ func execCase(c Case) (res vt.Result) {
 	}
 	cols := make([]models.Collection, c.Collections)
 	for i := range cols {
-		cols[i] = models.Collection{UserId: "u", Id: fmt.Sprintf("col%d", i), UserPlan: plan, IndexSchema: models.IndexSchema{"n": {Type: models.IndexTypeInteger}}}
+		cols[i] = models.Collection{UserId: "u", Id: fmt.Sprintf("col%d", i), UserPlan: plan, IndexSchema: models.IndexSchema{"n": {Type: models.IndexTypeInteger},
+			"v": {Type: models.IndexTypeVectorVamana, VectorVamana: &models.IndexVectorVamanaParameters{VectorSize: 2, DistanceMetric: models.DistanceEuclidean, SearchSize: 75, DegreeBound: 64, Alpha: 1.2}}}}
 		for j := 0; j < c.Shards; j++ {
 			cols[i].ShardIds = append(cols[i].ShardIds, fmt.Sprintf("shard-%d-%d", i, j))
 		}
@@ -311,6 +320,37 @@ func execCase(c Case) (res vt.Result) {
 		p := filepath.Join(root, cluster.USERCOLSDIR, col.UserId, col.Id, shardId, "sharddb.bbolt")
 		if _, err := os.Stat(p); err != nil {
 			return fmt.Errorf("%s of a request callback the shard's database file is gone (removed while in use): %v", when, err)
+		}
+		if when == "at entry" {
+			// (one at a time per process: a search that overlaps a write on the same shard is C09's subject
+			// and has the catalogued finding D5)
+			dataMu.Lock()
+			defer dataMu.Unlock()
+			// the shard works: a point with a vector is written and found again. (A shard that is created
+			// afresh under the path of a deleted one must not be served from what the cache manager still
+			// holds of its predecessor.)
+			var id uuid.UUID
+			binary.LittleEndian.PutUint64(id[:8], pointSeq.Add(1))
+			id[6], id[8] = 0x40|id[6]&0x0f, 0x80|id[8]&0x3f
+			vec := []float32{float32(id[0]), float32(id[1])}
+			data, _ := msgpack.Marshal(map[string]any{"n": int64(id[0]), "v": vec})
+			if err := s.InsertPoints([]models.Point{{Id: id, Data: data}}); err != nil {
+				return fmt.Errorf("%s of a request callback an insert into the shard fails: %v", when, err)
+			}
+			res, err := s.SearchPoints(models.SearchRequest{Query: models.Query{Property: "v", VectorVamana: &models.SearchVectorVamanaOptions{Vector: vec, Operator: models.OperatorNear, Limit: 75, SearchSize: 75}}, Limit: 75})
+			if err != nil {
+				return fmt.Errorf("%s of a request callback a search on the shard fails: %v", when, err)
+			}
+			si, _ := s.Info()
+			found := false
+			for _, r := range res {
+				if r.Point.Id == id {
+					found = true
+				}
+			}
+			if !found && si.PointCount <= 75 {
+				return fmt.Errorf("%s of a request callback the point just inserted is not among the %d results of a search for its vector (%d points stored)", when, len(res), si.PointCount)
+			}
 		}
 		return nil
 	}
